@@ -2,6 +2,7 @@
 
 mod c02;
 mod c03;
+mod c07;
 mod c08;
 mod c19;
 mod inproc;
@@ -21,6 +22,7 @@ pub fn replay_dispatch(prop: &str, layer: &str, case: &serde_json::Value) -> Res
     match prop {
         "C02" => c02::replay(layer, case),
         "C03" => c03::replay(layer, case),
+        "C07" => c07::replay(layer, case),
         "C08" => c08::replay(layer, case),
         "C19" => c19::replay(layer, case),
         _ => Err(format!("no replay handler for property {prop}")),
@@ -115,6 +117,7 @@ fn main() {
     match prop.as_str() {
         "C02" => c02::run(&mut run, &ctx),
         "C03" => c03::run(&mut run, &ctx),
+        "C07" => c07::run(&mut run, &ctx),
         "C08" => c08::run(&mut run, &ctx),
         "C19" => c19::run(&mut run, &ctx),
         _ => {
